@@ -554,9 +554,13 @@ def run_history(hist, prov):
 def plain_dst_switch(d, es, idx):
     """is the onset es[idx] a switch between a STANDARD and a DAYLIGHT observance by the DAYLIGHT
     observance's own amount (the case dateutil's wall-clock conversion is built for)?"""
-    if idx == 0:
-        return True
     new = d['obs'][es[idx][1]]
+    if idx == 0:
+        # before the first onset dateutil answers with the first STANDARD component of the file
+        fallback = next((o for o in d['obs'] if o['kind'] == 'STANDARD'), d['obs'][0])
+        if new['kind'] == 'STANDARD':
+            return fallback is new
+        return fallback['off_to'] == new['off_from'] and new['off_to'] > new['off_from']
     old = d['obs'][es[idx - 1][1]]
     if new['off_from'] != old['off_to'] or new['kind'] == old['kind']:
         return False
@@ -579,7 +583,8 @@ def classify(d, prov, t, es):
         if any(expand(o) != expand(o, until_local=True) for o in d['obs']):
             return 'dateutil-until-read-as-local'
         if t is not None:
-            jump = max([abs(o['off_to'] - o['off_from']) for o in d['obs']] + [abs(a['off_to'] - b['off_to']) for a in d['obs'] for b in d['obs']])
+            offs = [o[k] for o in d['obs'] for k in ('off_from', 'off_to')]
+            jump = max(offs) - min(offs)      # dateutil compares wall clocks: an onset can be misplaced by any such difference
             for idx, (u, _) in enumerate(es):
                 if abs(t - u) <= jump and not plain_dst_switch(d, es, idx):
                     return 'dateutil-wallclock-conversion'
